@@ -256,7 +256,7 @@ func buildC07(cfg *mon.Config) []*mon.Sub {
 	}
 	reuse := &mon.Sub{
 		Name:  "one-manager-many-conversions",
-		Rule:  "seeded sequences of 4..40 conversions (values from the pool, a small set of colliding strings and numbers, every target type) performed on ONE manager instance (and, for half of the steps, on one re-used variant that is given its next value by Assign); after every step the outcome (type, value, error-ness) must equal that of a freshly constructed manager converting a freshly built value; distinct by hash",
+		Rule:  "seeded sequences of 4..40 conversions (values from the pool, a small set of colliding strings and numbers, every target type) performed on ONE manager instance (and, for half of the steps, on one re-used variant that is given its next value by Assign); after every step the outcome (type, value, error-ness) must equal that of a freshly constructed manager converting a freshly built value, and every result the caller received in earlier steps (other than the operand itself) must still hold what it held; distinct by hash",
 		Floor: 500,
 		Gen: func(emit func(string)) {
 			r := cfg.Rng("c07-reuse")
@@ -285,6 +285,9 @@ func buildC07(cfg *mon.Config) []*mon.Sub {
 			mgr := manager(parts[0])
 			reused := variants.EmptyVariant()
 			var trace []string
+			var kept []*variants.Variant
+			var keptSnap []string
+			var keptFrom []int
 			for _, st := range parts[1:] {
 				T, mode, v := st[:1], st[1:2], decVals(st[2:])[0]
 				in := v.Variant()
@@ -292,12 +295,14 @@ func buildC07(cfg *mon.Config) []*mon.Sub {
 					reused.Assign(in)
 					in = reused
 				}
+				var lastResult *variants.Variant
 				obs := func(m variants.IVariantOperations, x *variants.Variant) string {
 					var r *variants.Variant
 					var err error
 					if p := mon.Try(func() { r, err = m.Convert(x, tagType[T]) }); p != nil {
 						return "PANIC " + p.Sig()
 					}
+					lastResult = r
 					if err != nil {
 						return "error " + errCode(err)
 					}
@@ -309,6 +314,22 @@ func buildC07(cfg *mon.Config) []*mon.Sub {
 				}
 				trace = append(trace, fmt.Sprintf("Convert(%s, %s)%s", v, typeNames[T], map[string]string{"a": " on a re-used variant", "n": ""}[mode]))
 				got := obs(mgr, in)
+				justAdded := -1
+				if lastResult != nil && lastResult != in && lastResult != reused {
+					justAdded = len(kept)
+					kept = append(kept, lastResult) // the caller keeps the results
+					keptSnap = append(keptSnap, snap(lastResult).String())
+					keptFrom = append(keptFrom, len(trace))
+				}
+				for k, r := range kept {
+					if k == justAdded {
+						continue
+					}
+					if now := snap(r).String(); now != keptSnap[k] {
+						c.Failf(parts[0]+" manager: a result handed out earlier is altered by a later conversion", "sequence: %s\nthe result of step %d was %s and is now %s", strings.Join(trace, "; "), keptFrom[k], keptSnap[k], now)
+						return
+					}
+				}
 				want := obs(manager(parts[0]), v.Variant())
 				if got != want {
 					c.Failf(parts[0]+" manager: a conversion depends on what the manager (or the variant) was used for before", "sequence: %s\nfresh manager and value: %s\nre-used:                 %s", strings.Join(trace, "; "), want, got)
